@@ -385,4 +385,45 @@ theorem replaceStream_names (sorted : List Repl) (inner : SResult) (hd : DeclOK 
   · have := (rRemainder_unmapped _ _ _ _).1 t' mm hmem
     rw [this] at hy; cases hy
 
+
+/-! ## the exact rule for replacement content -/
+
+/-- **which name the first line of a replacement's content carries**: the replacement's own name when it has one (and the
+spot it is spliced into is mapped) — resolved through the names announced so far plus what `rName` announces —, otherwise the
+name of the inner segment it is spliced into, translated by the ReplaceSource's table -/
+theorem rName_exact (RNs : List Text) (r : Repl) (st : RSt) (l : LSt) (N IN : List Text) (h : RN RNs st N IN) :
+    (∀ nm x, r.name = some nm → l.orig = some x →
+        (N ++ annN (rName r st l).2.1)[(rName r st l).2.2.getD 0]? = some nm ∧ ((rName r st l).2.2).isSome = true)
+    ∧ ((r.name = none ∨ l.orig = none) → (rName r st l).2.2 = (l.orig.bind (·.name)).bind fun n => st.nim[n]?) := by
+  constructor
+  · intro nm x hnm hx
+    unfold rName
+    rw [hnm, hx]
+    simp only []
+    obtain ⟨_, _, _, n4⟩ := globalName_spec N nm 0
+    rw [h.nm]
+    exact ⟨by simpa using n4, rfl⟩
+  · intro hno
+    unfold rName
+    rcases hno with hno | hno
+    · rw [hno]
+    · rw [hno]; cases r.name <;> rfl
+
+/-- only the first line of a replacement's content carries a name: the following lines are delivered without one -/
+theorem emitContent_names (gc : Nat) (orig : Option Orig) : ∀ (cls : List Text) (nameIdx : Option Nat) (st : RSt) (line : Int),
+    (chunkMs (emitContent gc orig cls nameIdx st line).2.1).map (fun m => m.orig.bind (·.name))
+      = match cls with
+        | [] => []
+        | _ :: rest => (orig.bind fun _ => nameIdx) :: rest.map fun _ => none := by
+  intro cls
+  induction cls with
+  | nil => intro _ _ _; rfl
+  | cons cl cls ih =>
+    intro nameIdx st line
+    simp only [emitContent, chunkMs, List.map_cons]
+    rw [ih none]
+    cases cls with
+    | nil => cases orig <;> rfl
+    | cons c2 cs => cases orig <;> simp
+
 end Rs
